@@ -1,0 +1,1 @@
+//! Verification hooks: entry (see mod.rs).
